@@ -43,6 +43,7 @@ type c02Args struct {
 	First int // index of the first alphabet action of the histories of this unit
 	Len   int
 	Drop  bool
+	Sched int // >0: scheduler scenario number Sched-1 (concurrent writers, then a restart from the log)
 }
 
 func c02Alphabet() []Action {
@@ -67,6 +68,12 @@ func (c02Check) Units(tier string, seed int64) []Unit {
 				us = append(us, Unit{Name: fmt.Sprintf("%s-first%d-len%d-drop%v", s, f, n, drop), Args: b})
 			}
 		}
+	}
+	// concurrent writers in different databases: every interleaving must leave a log that restores what some serial order
+	// restores (the scenarios are shared with C20)
+	for i := range c20SchedScenarios(tier) {
+		b, _ := json.Marshal(c02Args{Sched: i + 1})
+		us = append(us, Unit{Name: fmt.Sprintf("sched-%d", i), Args: b})
 	}
 	if tier == "thorough" {
 		add(3, false) // P+T over histories of length <= 3
@@ -109,6 +116,13 @@ func (c02Check) Run(u Unit, w *Worker) UnitResult {
 	var a c02Args
 	json.Unmarshal(u.Args, &a)
 	res := UnitResult{Stats: map[string]int64{}}
+	if a.Sched > 0 {
+		sc := c20SchedScenarios(u.Tier)[a.Sched-1]
+		if w.Case(sc.Name) {
+			judgeScenario("C02", sc, &res)
+		}
+		return res
+	}
 	cfg := InstCfg{DataDir: "/data", RestoreAOF: true, AOFSync: a.Sync}
 	alpha := c02Alphabet()
 	outcomes := map[string]struct{}{}
